@@ -61,4 +61,11 @@ inductive CAct where
 structure Inspector where
   arms : List (List String × List CAct)
 
+/-- a pass over the initialisers of global value specs:
+    `for _, spec := range specs { switch spec := spec.(type) { case *ast.ValueSpec: for _, value := range spec.Values {
+       ast.Inspect(value, func(n ast.Node) bool { if n == nil { return false }; switch n := n.(type) { case *ast.FuncLit: arm…; return false }; return true }) } } }`
+    — `arm` runs on every OUTERMOST function literal of every value (`return false` inside it is `cont`) -/
+structure LitPass where
+  arm : List Act
+
 end GoatSpec.WalkIR
